@@ -31,6 +31,8 @@ class FakeWriter:
         self.name = name
         self.sink = sink  # bytearray: bytes in flight towards the peer
         self.closed = False
+        self.stalled = False  # back-pressure: the peer does not read, drain() blocks
+        self.resume = asyncio.Event()
 
     def write(self, data):
         if not self.closed:
@@ -38,6 +40,9 @@ class FakeWriter:
 
     async def drain(self):
         await asyncio.sleep(0)
+        while self.stalled and not self.closed:
+            self.resume.clear()
+            await self.resume.wait()
 
     def close(self):
         self.closed = True
@@ -85,6 +90,8 @@ def st_case(draw):
             ops.append(["s2c", w, draw(st.sampled_from([1, 5, 16, 20, 31, 32, 33, 50, 64, 100]))])
         else:
             ops.append(["close", w])
+        if draw(st.integers(0, 11)) == 0:
+            ops.append(draw(st.sampled_from([["stall", w], ["unstall", w], ["advance"]])))
     final = draw(st.sampled_from([1, 7, 20, 31, 32, 33, 1000]))
     unknown = draw(st.lists(st.integers(0, len(IDS) - 1), max_size=2))
     return {"workers": nw, "ops": ops, "final_chunk": final, "unknown_ids": unknown}
@@ -133,10 +140,11 @@ class Notifier(Sub):
             server = notifier.NotifyServer()
             clients = [notifier.NotifyClient(s) for s in storages]
             tasks = []
+            srv_writers = [FakeWriter("s%d" % i, s2c[i]) for i in range(nw)]
             for i in range(nw):
                 pending_conn.append(i)
                 tasks.append(asyncio.create_task(clients[i].connect()))
-                tasks.append(asyncio.create_task(server.handle_notify(srv_readers[i], FakeWriter("s%d" % i, s2c[i]))))
+                tasks.append(asyncio.create_task(server.handle_notify(srv_readers[i], srv_writers[i])))
             await idle()
             announced = [[] for _ in range(nw)]   # per sender: list of ids announced
             sent_bytes = [0] * nw                 # bytes of c2s delivered to the server
@@ -182,6 +190,18 @@ class Notifier(Sub):
                     await deliver_c2s(op[1], op[2])
                 elif op[0] == "s2c":
                     await deliver_s2c(op[1], op[2])
+                elif op[0] == "stall":
+                    srv_writers[op[1]].stalled = True   # worker op[1] stops reading: writes to it back up
+                    labels.append("backpressure")
+                elif op[0] == "unstall":
+                    srv_writers[op[1]].stalled = False
+                    srv_writers[op[1]].resume.set()
+                    await idle()
+                elif op[0] == "advance":
+                    # time passes (any timer the code under test armed fires)
+                    for _ in range(3):
+                        asyncio.get_running_loop().jump_to_next_timer()
+                        await idle()
                 elif op[0] == "close" and not closed[op[1]]:
                     closed[op[1]] = True
                     labels.append("peer-closed")
@@ -189,6 +209,10 @@ class Notifier(Sub):
                     cli_readers[op[1]].feed_eof()
                     await idle()
             # flush everything that is still in flight, in chunks of the drawn size
+            for wtr in srv_writers:
+                wtr.stalled = False
+                wtr.resume.set()
+            await idle()
             fc = case["final_chunk"]
             for _ in range(10000):
                 moved = False
